@@ -19,6 +19,7 @@ import (
 	"time"
 
 	"github.com/go-kit/log"
+	"github.com/golang/snappy"
 
 	"github.com/grafana/dskit/cache"
 
@@ -48,7 +49,28 @@ var big2 = func() []byte {
 	return b
 }()
 
-var values = map[string][]byte{"x": []byte("x"), "y": []byte("y"), "big": big, "big2": big2, "empty": {}, "zeros": make([]byte, 40)}
+var values = map[string][]byte{"x": []byte("x"), "y": []byte("y"), "big": big, "big2": big2, "empty": {}, "zeros": make([]byte, 40),
+	// a plain value, and a value that happens to be a well-formed snappy stream (of another plain value of the same length):
+	// bytes a compression wrapper must treat like any others
+	"p8": []byte("aaaaaaaa"), "encq8": snappy.Encode(nil, []byte("bbbbbbbb"))}
+
+// arena is a caller-side Allocator as the option describes it: buffers handed back through Put are given out
+// again by Get (most recently returned first) when they are large enough.
+type arena struct{ free []*[]byte }
+
+func (a *arena) Get(sz int) *[]byte {
+	for i := len(a.free) - 1; i >= 0; i-- {
+		if cap(*a.free[i]) >= sz {
+			b := a.free[i]
+			a.free = append(a.free[:i], a.free[i+1:]...)
+			*b = (*b)[:0]
+			return b
+		}
+	}
+	b := make([]byte, 0, sz)
+	return &b
+}
+func (a *arena) Put(b *[]byte) { a.free = append(a.free, b) }
 
 type op struct {
 	kind string // set add setasync setmulti get delete advance
@@ -114,6 +136,7 @@ type stackCfg struct {
 	layers  []string // outermost first: lru versioned snappy
 	lruSize int
 	shared  bool // two clients (versions 1 and 11) over one backend
+	alloc   bool // reads pass WithAllocator(arena): whatever a layer does with the option, answers stay the same
 	prepop  bool // a second instance of the same stack (same version) may write once, before the client under test starts
 }
 
@@ -155,6 +178,12 @@ func stacks() []stackCfg {
 	out = append(out,
 		stackCfg{name: "shared:versioned>lru | versioned>lru", layers: []string{"versioned", "lru"}, lruSize: 2, shared: true},
 		stackCfg{name: "shared:lru>versioned>snappy | same", layers: []string{"lru", "versioned", "snappy"}, lruSize: 2, shared: true})
+	// reads with a caller-side allocator (small alphabet, one step deeper): every ordering of {lru, snappy} and of all three layers
+	for _, sub := range [][]string{{"lru", "snappy"}, {"lru", "versioned", "snappy"}} {
+		for _, p := range perms(sub) {
+			out = append(out, stackCfg{name: "allocator:" + strings.Join(p, ">") + "(lru=2)", layers: p, lruSize: 2, alloc: true})
+		}
+	}
 	// the backend may already hold entries written by another process running the same stack
 	for _, l := range [][]string{{"lru"}, {"lru", "versioned", "snappy"}, {"versioned", "lru"}} {
 		for _, sz := range []int{1, 2} {
@@ -176,6 +205,20 @@ func alphabetPrepop() []op {
 	}
 	ops = append(ops, op{kind: "get", keys: []string{"a"}}, op{kind: "delete", keys: []string{"a"}},
 		op{kind: "advance", d: 2 * time.Second}, op{kind: "advance", d: 4 * time.Second})
+	return ops
+}
+
+// small alphabet for the allocator configurations (explored one step deeper): two keys, three values of which one is
+// itself a well-formed compressed stream, reads of either key or both
+func alphabetAlloc() []op {
+	var ops []op
+	for _, k := range []string{"a", "1@a"} {
+		for _, v := range []string{"p8", "encq8", "x"} {
+			ops = append(ops, op{kind: "set", keys: []string{k}, vals: []string{v}, ttl: 5 * time.Second})
+		}
+		ops = append(ops, op{kind: "get", keys: []string{k}})
+	}
+	ops = append(ops, op{kind: "get", keys: []string{"a", "1@a"}}, op{kind: "delete", keys: []string{"a"}}, op{kind: "advance", d: 4 * time.Second})
 	return ops
 }
 
@@ -219,6 +262,10 @@ func run(cfg stackCfg, seq []op) (viol string, hits int) {
 	ref := map[string]*refEntry{} // "<client>/<key>"
 	var now time.Duration
 	ctx := context.Background()
+	var ropts []cache.Option
+	if cfg.alloc {
+		ropts = append(ropts, cache.WithAllocator(&arena{}))
+	}
 	for i, o := range seq {
 		c := clients[o.who]
 		if cfg.prepop {
@@ -271,10 +318,10 @@ func run(cfg stackCfg, seq []op) (viol string, hits int) {
 		case "get", "geterr":
 			var got map[string][]byte
 			if o.kind == "get" {
-				got = c.GetMulti(ctx, o.keys)
+				got = c.GetMulti(ctx, o.keys, ropts...)
 			} else {
 				var err error
-				got, err = c.GetMultiWithError(ctx, o.keys)
+				got, err = c.GetMultiWithError(ctx, o.keys, ropts...)
 				if err != nil {
 					return fmt.Sprintf("step %d %s: error %v", i, o, err), hits
 				}
@@ -319,8 +366,8 @@ func TestC19Wrappers(t *testing.T) {
 		depth = 5
 	}
 	cfgs := stacks()
-	a1, a2, a3 := alphabet(1), alphabet(2), alphabetPrepop()
-	rep.Bound = fmt.Sprintf("%d stack configurations (every ordering of every non-empty subset of {in-memory LRU (size 1 and 2, default retention 3s), versioned, snappy} over the in-process backend, plus two clients with versions 1 and 11 sharing one backend, plus stacks whose backend was pre-populated by another process running the same stack — those one step deeper over a 12-operation alphabet); every operation sequence of length <= %d (thorough: that depth for the stacks of an in-memory layer with at most one more wrapper, one less for the others) over %d operations (%d for the shared configuration): set/add/async/multi sets with values {x, y, two different 40-byte incompressible values (also in one batch), empty, 40 zero bytes} and TTL 0/1s/5s on keys {a, \"1@a\"}, get-multi, delete, clock advance 2/4/6 s", len(cfgs), depth, len(a1), len(a2))
+	a1, a2, a3, a4 := alphabet(1), alphabet(2), alphabetPrepop(), alphabetAlloc()
+	rep.Bound = fmt.Sprintf("%d stack configurations (every ordering of every non-empty subset of {in-memory LRU (size 1 and 2, default retention 3s), versioned, snappy} over the in-process backend, plus two clients with versions 1 and 11 sharing one backend, plus stacks whose backend was pre-populated by another process running the same stack — those one step deeper over a 12-operation alphabet, plus the 8 orderings of {LRU, snappy} and {LRU, versioned, snappy} read with a caller-side recycling Allocator — one step deeper over an 11-operation alphabet whose values include one that is itself a well-formed snappy stream); every operation sequence of length <= %d (thorough: that depth for the stacks of an in-memory layer with at most one more wrapper, one less for the others) over %d operations (%d for the shared configuration): set/add/async/multi sets with values {x, y, two different 40-byte incompressible values (also in one batch), empty, 40 zero bytes} and TTL 0/1s/5s on keys {a, \"1@a\"}, get-multi, delete, clock advance 2/4/6 s", len(cfgs), depth, len(a1), len(a2))
 	rep.Rule = "each sequence replayed on a fresh real stack (virtual clock for the in-memory layer, Advance for the backend) against a map-with-expiry reference: a read returns only requested keys, only the most recently stored value of that client/version byte for byte, never after deletion, never beyond TTL (+ in-memory retention); Add fails iff the backend holds an unexpired entry; distinct_nontrivial = sequences with at least one cache hit"
 	deadline := ev.Deadline(8 * time.Minute)
 	type job struct {
@@ -348,7 +395,11 @@ func TestC19Wrappers(t *testing.T) {
 						alp = a3
 						depth++
 					}
-					if ev.Thorough() && !cfg.prepop && !(len(cfg.layers) <= 2 && !cfg.shared && strings.Contains(strings.Join(cfg.layers, ","), "lru")) {
+					if cfg.alloc {
+						alp = a4
+						depth++
+					}
+					if ev.Thorough() && !cfg.prepop && !cfg.alloc && !(len(cfg.layers) <= 2 && !cfg.shared && strings.Contains(strings.Join(cfg.layers, ","), "lru")) {
 						depth-- // thorough: the extra step only where an in-memory layer with at most one more wrapper makes the history matter most
 					}
 					first := jb[1]
@@ -407,6 +458,9 @@ func TestC19Wrappers(t *testing.T) {
 		}
 		if cfg.prepop {
 			n = len(a3)
+		}
+		if cfg.alloc {
+			n = len(a4)
 		}
 		for f := 0; f < n; f++ {
 			jobs <- [2]int{ci, f}
